@@ -203,6 +203,13 @@ func (m *Model) RunResponse(s *Sink, rule string) {
 				out.writes = append(out.writes, what)
 				return nil, true
 			}
+			if !m.InModule(sc) {
+				for _, a := range args {
+					if a == any(wTok) {
+						out.writes = append(out.writes, "?") // the writer handed to library code we do not model: may write anything
+					}
+				}
+			}
 			return nil, false
 		}
 		args := make([]any, len(resp.Params))
